@@ -2,10 +2,10 @@
 import os, json, subprocess, hashlib
 import runner
 
-def dump(dbdir, ns, ext, extra_srcs=None):
+def dump(dbdir, ns, ext, extra_srcs=None, strict=True):
     """-> dict(db=..., zones=[...], policies={addr: {...}})"""
     srcs = [os.path.join(dbdir, f) for f in ('zone_infos.cpp', 'zone_policies.cpp', 'zone_registry.cpp')]
-    exe = runner.build_driver('table_dump.cpp', 'fast', extra_srcs=srcs, extra_flags=['-DVDB_NS=' + ns, '-DVDB_EXT=%d' % (1 if ext else 0)], with_lib=False, extra_inc=[dbdir])
+    exe = runner.build_driver('table_dump.cpp', 'fast', extra_srcs=srcs, extra_flags=['-DVDB_NS=' + ns, '-DVDB_EXT=%d' % (1 if ext else 0)], with_lib=False, extra_inc=[dbdir], strict=strict)
     p = subprocess.run([exe], stdout=subprocess.PIPE, stderr=subprocess.PIPE, text=True)
     if p.returncode != 0:
         raise runner.Broken('table_dump failed: ' + p.stderr[-1000:])
